@@ -133,7 +133,8 @@ impl RotoReport {
                 }
                 RotoError::Parse(error) => {
                     let file = self.filename(error.location);
-                    let file_text = file_cache.fetch(&file).unwrap().text();
+                    let file_text =
+                        self.files[error.location.file].contents.as_str();
 
                     let label_message = error.kind.label();
                     let label = Label::new((
@@ -158,7 +159,9 @@ impl RotoReport {
                     for hint in &error.hints {
                         let label = Label::new((
                             self.filename(hint.location),
-                            hint.location.start..hint.location.end,
+                            hint.location.character_range(
+                                &self.files[hint.location.file].contents,
+                            ),
                         ))
                         .with_message(&hint.text)
                         .with_color(Color::Yellow);
@@ -179,13 +182,17 @@ impl RotoReport {
                 }
                 RotoError::Type(error) => {
                     let file = self.filename(self.spans.get(error.location));
-                    let file_text = file_cache.fetch(&file).unwrap().text();
+                    let file_text = self.files
+                        [self.spans.get(error.location).file]
+                        .contents
+                        .as_str();
 
                     let labels = error.labels.iter().map(|l| {
                         let s = self.spans.get(l.id);
+                        // a label can lie in another file than the error
                         Label::new((
                             self.filename(s),
-                            s.character_range(file_text),
+                            s.character_range(&self.files[s.file].contents),
                         ))
                         .with_message(&l.message)
                         .with_color(match l.level {
